@@ -380,6 +380,129 @@ func c02MultiFileProject(r *Rand) *c02Input {
 	return &c02Input{Files: files, Lint: lint, Site: "multi-file-shared-broken-callees"}
 }
 
+// c02LabelSoup spreads 3-7 runner labels over an inline flow list, a block list and matrix-provided
+// values (rows and include entries written below or above runs-on at other columns), so that
+// "first / smallest position" choices are made between positions whose line and column order differ.
+func c02LabelSoup(r *Rand) *c02Input {
+	pool := []string{"ubuntu-latest", "ubuntu-22.04", "ubuntu-24.04", "linux", "x64", "windows-latest", "windows-2022", "windows", "macos-latest", "macos-13", "macos", "arm64", "self-hosted"}
+	p := r.Perm(len(pool))
+	n := r.Range(3, 7)
+	var direct, viaMatrix, viaInclude []string
+	for i := 0; i < n; i++ {
+		switch r.Intn(4) {
+		case 0:
+			viaMatrix = append(viaMatrix, pool[p[i]])
+		case 1:
+			viaInclude = append(viaInclude, pool[p[i]])
+		default:
+			direct = append(direct, pool[p[i]])
+		}
+	}
+	ind := strings.Repeat(" ", r.Range(0, 6))
+	var labels []string
+	labels = append(labels, direct...)
+	if len(viaMatrix)+len(viaInclude) > 0 {
+		k := r.Intn(len(labels) + 1)
+		labels = append(labels[:k:k], append([]string{"${{ matrix.os }}"}, labels[k:]...)...)
+	}
+	var ro string
+	if r.Bool() {
+		q := make([]string, len(labels))
+		for i, l := range labels {
+			q[i] = strconvQuote(l)
+		}
+		ro = "    runs-on: " + ind + "[" + strings.Join(q, ", ") + "]\n"
+	} else {
+		ro = "    runs-on:\n"
+		for _, l := range labels {
+			ro += "      " + strings.Repeat(" ", r.Intn(3)*2) + "- " + strconvQuote(l) + "\n"
+		}
+	}
+	strat := ""
+	if len(viaMatrix)+len(viaInclude) > 0 {
+		strat = "    strategy:\n      matrix:\n"
+		if len(viaMatrix) > 0 {
+			strat += "        os: [" + strings.Join(viaMatrix, ", ") + "]\n"
+		} else {
+			strat += "        other: [1]\n"
+		}
+		if len(viaInclude) > 0 {
+			strat += "        include:\n"
+			for _, l := range viaInclude {
+				strat += "          - os: " + l + "\n"
+			}
+		}
+	}
+	body := ro + strat
+	if r.Bool() {
+		body = strat + ro
+	}
+	return &c02Input{Files: map[string]string{".github/workflows/w.yml": "on: push\njobs:\n  test:\n" + body + "    steps:\n      - run: echo\n"}, Lint: []string{".github/workflows/w.yml"}, Site: "runner-label-soup"}
+}
+
+func strconvQuote(s string) string {
+	if strings.ContainsAny(s, "${") {
+		return "\"" + s + "\""
+	}
+	return s
+}
+
+// c02InterfaceProject: WELL-FORMED-LOOKING callees with rich interfaces (required x default x type
+// combinations, including empty-string and null defaults) and callers that omit or pass inputs,
+// linted together with the callee files, so that a result depending on which derivation of the
+// callee's interface (file or AST) reaches the shared cache first shows up as nondeterminism.
+func c02InterfaceProject(r *Rand) *c02Input {
+	files := map[string]string{}
+	var lint []string
+	reqs := []string{"", "        required: true\n", "        required: false\n"}
+	defs := []string{"", "        default: ''\n", "        default: \"\"\n", "        default: x\n", "        default: 0\n", "        default: false\n", "        default: null\n", "        default: ~\n", "        default:\n"}
+	types := []string{"string", "number", "boolean"}
+	var callee strings.Builder
+	callee.WriteString("on:\n  workflow_call:\n    inputs:\n")
+	ni := r.Range(3, 8)
+	var names []string
+	for i := 0; i < ni; i++ {
+		nm := fmt.Sprintf("in%d", i)
+		names = append(names, nm)
+		callee.WriteString("      " + nm + ":\n        type: " + r.Pick(types) + "\n" + r.Pick(reqs) + r.Pick(defs))
+	}
+	callee.WriteString("    secrets:\n")
+	ns := r.Range(1, 4)
+	for i := 0; i < ns; i++ {
+		callee.WriteString(fmt.Sprintf("      sec%d:\n", i) + r.Pick([]string{"        required: true\n", "        required: false\n", "        description: d\n"}))
+	}
+	callee.WriteString("    outputs:\n      out0:\n        value: x\njobs:\n  j:\n    runs-on: ubuntu-latest\n    steps:\n      - run: echo\n")
+	files[".github/workflows/callee.yml"] = callee.String()
+	// local action with required x default combinations
+	var act strings.Builder
+	act.WriteString("name: a\ndescription: d\ninputs:\n")
+	for i := 0; i < r.Range(2, 6); i++ {
+		act.WriteString(fmt.Sprintf("  a%d:\n    description: x\n", i) + r.Pick([]string{"", "    required: true\n", "    required: false\n"}) + r.Pick([]string{"", "    default: ''\n", "    default: x\n", "    default: null\n", "    default:\n"}))
+	}
+	act.WriteString("runs:\n  using: node20\n  main: index.js\n")
+	files["act/action.yml"] = act.String()
+	files["act/index.js"] = "\n"
+	nf := r.Range(2, 6)
+	for i := 0; i < nf; i++ {
+		name := fmt.Sprintf(".github/workflows/caller%d.yml", i)
+		var with strings.Builder
+		pass := r.Intn(len(names) + 1)
+		if pass > 0 {
+			with.WriteString("    with:\n")
+			for _, k := range r.Perm(len(names))[:pass] {
+				with.WriteString("      " + names[k] + ": " + r.Pick([]string{"x", "1", "true", "''"}) + "\n")
+			}
+		}
+		files[name] = "on: push\njobs:\n  c:\n    uses: ./.github/workflows/callee.yml\n" + with.String() + r.Pick([]string{"", "    secrets: inherit\n", "    secrets:\n      sec0: x\n"}) +
+			"  a:\n    runs-on: ubuntu-latest\n    steps:\n      - uses: ./act\n"
+		lint = append(lint, name)
+	}
+	// the callee goes first, last or in the middle
+	k := r.Intn(len(lint) + 1)
+	lint = append(lint[:k:k], append([]string{".github/workflows/callee.yml"}, lint[k:]...)...)
+	return &c02Input{Files: files, Lint: lint, Site: "multi-file-interface-derivations"}
+}
+
 func c02CheckLib(c *Case, in *c02Input, reps int, tag string) {
 	root := mkScratch("c02")
 	defer os.RemoveAll(root)
@@ -463,6 +586,14 @@ func runC02(r *Run) {
 		in := ins[c.Idx%len(probe)]
 		c02CheckLib(c, in, reps, "tie")
 	}})
+	// runner labels spread over flow lists, block lists and matrix values at varying positions
+	fams = append(fams, &Family{Name: "runner-label-soup", N: r.Q(300, 6000), Do: func(c *Case) {
+		c02CheckLib(c, c02LabelSoup(c.R), reps, "soup")
+	}})
+	// callers + callee linted together: the callee's interface reaches the cache from its file or its AST
+	fams = append(fams, &Family{Name: "multi-file-interfaces", N: r.Q(40, 600), Par: 4, Do: func(c *Case) {
+		c02CheckLib(c, c02InterfaceProject(c.R), reps*2, "mfi")
+	}})
 	// multi-file projects with shared broken callees (library, LintFiles)
 	fams = append(fams, &Family{Name: "multi-file-lib", N: r.Q(6, 60), Par: 4, Do: func(c *Case) {
 		c02CheckLib(c, c02MultiFileProject(c.R), reps, "mf")
@@ -531,8 +662,11 @@ func runC02(r *Run) {
 		}
 		c02CheckCLI(c, in, r.Q(12, 60), nil)
 	}})
-	fams = append(fams, &Family{Name: "cli-multi-file", N: r.Q(6, 40), Par: 4, Do: func(c *Case) {
+	fams = append(fams, &Family{Name: "cli-multi-file", N: r.Q(12, 80), Par: 4, Do: func(c *Case) {
 		in := c02MultiFileProject(c.R)
+		if c.Idx%2 == 1 {
+			in = c02InterfaceProject(c.R)
+		}
 		var extra []string
 		switch c.Idx % 3 {
 		case 1:
